@@ -41,6 +41,10 @@ impl<K: KeyT, V: ValT> World<K, V> {
                 let kv = self.maps[mi].resolve_key(k);
                 let before = self.maps[mi].m.verif_state();
                 let present = self.maps[mi].model.get(&kv).copied();
+                // overwriting an element that already sits in the main table is an in-place
+                // update (C02: hashes only the key, moves nothing); overwriting one in the old
+                // table, or adding a key, may move up to R elements
+                let overwrite_in_main = present.is_some() && !in_old(&self.maps[mi], kv);
                 let p = &V::norm(*p);
                 let key = K::make(kv);
                 let val = V::make(*p);
@@ -60,7 +64,8 @@ impl<K: KeyT, V: ValT> World<K, V> {
                         if present.is_some() && before.split {
                             acc.probe("overwrite-while-split");
                         }
-                        self.post_map(acc, mi, before, stats, Cost::KeyAdding, present.is_none(), 0, false);
+                        let cost = if overwrite_in_main { Cost::Constant } else { Cost::KeyAdding };
+                        self.post_map(acc, mi, before, stats, cost, present.is_none(), 0, false);
                     }
                     Err(pn) => self.handle_panic(acc, pn, &[]),
                 }
